@@ -118,6 +118,8 @@ package dispatcher
 //@   ensures[C12] err == nil ==> amtIn(d, k) == old(amtIn(d, k)) + inc && amtOut(d, k) == old(amtOut(d, k)) + out && amt_has[d.dispatchedAmounts][k]
 //@   ensures[C12] err == nil ==> forall j T_cosmossdk_io_collections_Quad_int32_string_string_string_ :: j != k ==> amtIn(d, j) == old(amtIn(d, j)) && amtOut(d, j) == old(amtOut(d, j))
 //@   ensures[C12] err != nil ==> amt_has == old(amt_has) && amt_val == old(amt_val)
+//   the store invariant is preserved (it is assumed at entry; this is the step of the induction over updates)
+//@   ensures[C12,C14] amtWF(d)
 
 //@ func (d *Dispatcher) updateDispatchedCounts(ctx, sourceID, destID) (err)
 //@   requires[inv]  d != nil
@@ -183,6 +185,8 @@ package dispatcher
 //@   letold k = quad4(sourceID.ProtocolId, sourceID.CounterpartyId, idstr(destID.ProtocolId, destID.CounterpartyId), denom)
 //@   ensures[C17] err == nil && amt_has == store(old(amt_has), d.dispatchedAmounts, store(old(amt_has)[d.dispatchedAmounts], k, true)) &&
 //@                amt_val == store(old(amt_val), d.dispatchedAmounts, store(old(amt_val)[d.dispatchedAmounts], k, amountDispatched))
+//   ... and the invariant "stored totals are non-nil and non-negative" when the written entry is
+//@   ensures[C17] old(amtWF(d)) && !isnil(amountDispatched.Incoming) && !isnil(amountDispatched.Outgoing) && val(amountDispatched.Incoming) >= 0 && val(amountDispatched.Outgoing) >= 0 ==> amtWF(d)
 //   the store invariant behind the export is preserved when the identifiers are valid (as they are at both call sites:
 //   validated genesis entries, and transfer attributes / forwarding identifiers validated on the receive path)
 //@   ensures[C17p] vcc(deref(sourceID)) && sourceID.ProtocolId >= 0 && vcc(deref(destID)) && 1 <= destID.ProtocolId && destID.ProtocolId <= 9 &&
@@ -206,9 +210,13 @@ package dispatcher
 //@   requires[C17] dispGenesisOK(g)
 //@   loop 0 invariant[C17] amtEntriesOK(g) && cntEntriesOK(g) && cnt_has == old(cnt_has) && cnt_val == old(cnt_val)
 //@   loop 0 invariant[C17] amtKeysDistinctG(g) ==> forall j int trigger(g.DispatchedAmounts[j]) :: 0 <= j && j < idx ==> amt_has[d.dispatchedAmounts][amtKeyOf(g.DispatchedAmounts[j])] && amt_val[d.dispatchedAmounts][amtKeyOf(g.DispatchedAmounts[j])] == g.DispatchedAmounts[j].AmountDispatched
+//   the totals invariant (non-nil, non-negative) is carried through the import: base case of the induction over updates
+//@   loop 0 invariant[C17] old(amtWF(d)) ==> amtWF(d)
 //@   loop 1 invariant[C17] cntEntriesOK(g)
+//@   loop 1 invariant[C17] old(amtWF(d)) ==> amtWF(d)
 //@   loop 1 invariant[C17] cntKeysDistinctG(g) ==> forall j int trigger(g.DispatchedCounts[j]) :: 0 <= j && j < idx ==> cnt_has[d.dispatchedCounts][cntKeyOf(g.DispatchedCounts[j])] && cnt_val[d.dispatchedCounts][cntKeyOf(g.DispatchedCounts[j])] == g.DispatchedCounts[j].Count
 //@   ensures[C17] err == nil
+//@   ensures[C17] old(amtWF(d)) ==> amtWF(d)
 //   content (for a genesis whose entries have pairwise different keys, as every exported genesis has): every listed entry is stored under its key
 //@   ensures[C17] amtKeysDistinctG(g) ==> forall j int trigger(g.DispatchedAmounts[j]) :: 0 <= j && j < len(g.DispatchedAmounts) ==> amt_has[d.dispatchedAmounts][amtKeyOf(g.DispatchedAmounts[j])] && amt_val[d.dispatchedAmounts][amtKeyOf(g.DispatchedAmounts[j])] == g.DispatchedAmounts[j].AmountDispatched
 //@   ensures[C17] cntKeysDistinctG(g) ==> forall j int trigger(g.DispatchedCounts[j]) :: 0 <= j && j < len(g.DispatchedCounts) ==> cnt_has[d.dispatchedCounts][cntKeyOf(g.DispatchedCounts[j])] && cnt_val[d.dispatchedCounts][cntKeyOf(g.DispatchedCounts[j])] == g.DispatchedCounts[j].Count
